@@ -295,7 +295,7 @@ def run_pack(rep, drv, tier, workers):
                         sig.update(extra)
                         st["bad"] += 1
                         rep.violation(sig, {"cmd": "lua-run", "format": "".join(c["f"]),
-                                            "values": [lua_val(x) for x in c.get("vs", [])], "spec": c, "detail": detail,
+                                            "values": [lua_val(x) for x in c.get("vs", [])], "spec": c, "detail": detail, "kind": "pack",
                                             "src": "\n".join(pack_render(0, c))})
                     pack_compare(c, byk.get(k, {}), viol)
                     if st["n"] % 50000 == 1:
@@ -450,7 +450,7 @@ def run_quote(rep, drv, tier, workers, tonum=True):
             if kind == "int":
                 sig["val"] = str(limbs_to_int(c["l"]))
             val = lua_bytes(c["s"]) if kind == "str" else lua_int(limbs_to_int(c["l"])) if kind == "int" else c["e"]
-            rep.violation(sig, {"cmd": "lua-run", "detail": why[1], "value": val, "observed_text_hex": qb.hex() if qb else None,
+            rep.violation(sig, {"cmd": "lua-run", "kind": "quote", "detail": why[1], "value": val, "observed_text_hex": qb.hex() if qb else None,
                                 "spec_text": bytes(c["q"]).decode("latin-1") if "q" in c else None,
                                 "src": 'local v = %s; local q = string.format("%%q", v); print(q); print(load("return " .. q)() == v, '
                                        'math.type(v), math.type(load("return " .. q)()))' % val})
@@ -547,7 +547,7 @@ def run_printf(rep, drv, tier, workers):
                    "alt": "#" in fl, "zero": "0" in fl, "width": c["w"] > 0, "prec": c["p"] >= 0, "prec0": c["p"] == 0, "signflag": "+" in fl or " " in fl,
                    "wp": c["w"] > 0 or c["p"] >= 0, "vclass": vclass}
             args = c["args"] if "args" in c else [c["arg"]]
-            rep.violation(sig, {"cmd": "lua-run", "detail": why[1], "format": bytes(c["fmt"]).decode("latin-1"),
+            rep.violation(sig, {"cmd": "lua-run", "kind": "printf", "spec": c, "detail": why[1], "format": bytes(c["fmt"]).decode("latin-1"),
                                 "args": [lua_val(x) for x in args],
                                 "src": "print(string.format(%s%s))" % (lua_bytes(c["fmt"]), "".join("," + lua_val(x) for x in args))})
         elif cov["traces_validated_against_impl"] % 4999 == 0:
@@ -559,6 +559,42 @@ def run_printf(rep, drv, tier, workers):
 
 
 # --------------------------------------------------------------------------
+
+def replay(prop, path):
+    """./check C17 --replay <file>: run the recorded case again on the current tree and compare with the recorded expectation
+    of the spec (exit 1 when the discrepancy is still there, 0 when it is gone)"""
+    with open(path) as f:
+        r = json.load(f)["replay"]
+    drv = build_driver()
+    kind = r.get("kind")
+    found = []
+    if kind == "pack":
+        c = r["spec"]
+        o = lua_chunks(drv, [wrap_chunk(pack_render(0, c))], 100)[0]
+        if "crash" in o or "hang" in o:
+            found.append("crash/hang: %s" % str(o.get("crash", "hang"))[:300])
+        else:
+            evs = {e[1]["s"]: e[2:] for e in o["events"]}
+            pack_compare(c, evs, lambda extra, detail: found.append("%s %s: %s" % (extra["fn"], extra["why"], detail)))
+    elif kind == "printf":
+        c = r["spec"]
+        args = c["args"] if "args" in c else [c["arg"]]
+        src = 'emit(pcall(string.format,%s%s))' % (lua_bytes(c["fmt"]), "".join("," + lua_val(a) for a in args))
+        e = lua_chunks(drv, [src], 10)[0]["events"][0]
+        if e[0] is not True or got_bytes(e[1]) != bytes(c["out"]):
+            found.append("expected %r got %s" % (bytes(c["out"]), show(e)))
+    elif kind == "quote":
+        src = ('local v = %s local q = string.format("%%q", v) local f = load("return " .. q) emit(q, v, f and pcall(f))' % r["value"])
+        e = lua_chunks(drv, [src], 10)[0]["events"][0]
+        log("observed text: %r" % got_bytes(e[0]))
+        if len(e) < 4 or e[2] is not True or e[3] != e[1] or (r.get("spec_text") and "lexer" in r["detail"]):
+            found.append(r["detail"])
+    else:
+        raise Infra("unknown replay kind in %s" % path)
+    for x in found:
+        print("STILL-FAILING: " + x)
+    return 1 if found else 0
+
 
 def run(prop, tier, parts=None, workers=None):
     rep = Report(prop, tier, "model_checking")
